@@ -69,6 +69,11 @@ def _assignments(fn: ast.AST) -> Dict[str, List[ast.expr]]:
                     for x, v in zip(t.elts, n.value.elts):
                         if isinstance(x, ast.Name):
                             out.setdefault(x.id, []).append(v)
+                elif isinstance(t, (ast.Tuple, ast.List)) and not any(isinstance(x, ast.Starred) for x in t.elts) and not isinstance(n.value, (ast.Tuple, ast.List)):
+                    # `a, b = X` (X not a display): a is X[0], b is X[1]
+                    for k, x in enumerate(t.elts):
+                        if isinstance(x, ast.Name):
+                            out.setdefault(x.id, []).append(ast.Subscript(value=n.value, slice=ast.Constant(value=k), ctx=ast.Load()))
         elif isinstance(n, ast.AnnAssign) and n.value is not None and isinstance(n.target, ast.Name):
             out.setdefault(n.target.id, []).append(n.value)
         elif isinstance(n, ast.NamedExpr) and isinstance(n.target, ast.Name):
